@@ -7,6 +7,10 @@
 EXTENDS SeqNum, TLC, Json
 VARIABLE z
 I == 1 .. M
+(* every window as a set, computed once (constant-level definition); the windows [a, a+b) and [x, x+y)
+   share a number iff their intersection is non-empty: ShareSet, tied to the \E k form by MCSeqNum!QuadsLit *)
+Win == [p \in V |-> [s \in V |-> Window(p, s)]]
+Shares(a, b, x, y) == (Win[a][b] \cap Win[x][y]) # {}
 Bit(p) == IF p THEN 1 ELSE 0
 Table ==
   [ m    |-> M,
@@ -17,7 +21,8 @@ Table ==
     add  |-> [v \in I |-> [s \in I |-> Add(v - 1, s - 1)]],
     size |-> [v \in I |-> [w \in I |-> Size(v - 1, w - 1)]],
     ov   |-> [a \in I |-> [b \in I |-> [x \in I |-> [y \in I |->
-                Bit(Share(a - 1, b - 1, x - 1, y - 1)) + 2 * Bit(F2b(a - 1, b - 1, x - 1, y - 1))]]]] ]
+                Bit(Shares(a - 1, b - 1, x - 1, y - 1)) + 2 * Bit(F2b(a - 1, b - 1, x - 1, y - 1))]]]] ]
+ASSUME \A a, b, x, y \in {0, 1, H - 1, H, M - 1} : Shares(a, b, x, y) <=> Share(a, b, x, y)
 Init == z = 0 /\ JsonSerialize("table.json", Table)
 Next == UNCHANGED z
 Spec == Init /\ [][Next]_z
